@@ -81,6 +81,8 @@ pub fn summarize(p: &[u8], t_ms: u64) -> Option<PktSum> {
     let r = rfc::decode(p).ok()?;
     let (sbn, esi, _, _) = r.payload_id(8).ok()?;
     let fti = match r.fti(false) {
+        // Raptor / RaptorQ carry Z instead of B: any B' with ceil(Kt / B') = Z gives the sender's partition
+        Some(Ok(f)) if f.b == 0 && f.z > 0 && f.e > 0 => Some((f.l, f.e, f.l.div_ceil(f.e as u64).div_ceil(f.z as u64) as u32)),
         Some(Ok(f)) => Some((f.l, f.e, f.b)),
         _ => None,
     };
